@@ -111,7 +111,22 @@ func c18Dump(f *Fix) map[string]string {
 		out["sponsorship.endorsements"] = strings.Join(xs, ";")
 		d, err := app.SponsorshipKeeper.GetDistribution(ctx)
 		if err == nil {
-			out["sponsorship.distribution"] = d.String()
+			// the distribution as a function gauge -> power (what M-Spons and the C18 theorem speak about) and,
+			// separately, the ids of the stored ZERO-power entries: Distribution.Merge prunes non-positive
+			// entries inside its merge loop only, the tails are appended as they are, so which zero entries
+			// (a weight whose share of the voting power truncates to zero) survive depends on the merge order
+			var zero []string
+			fn := d
+			fn.Gauges = nil
+			for _, g := range d.Gauges {
+				if g.Power.IsZero() {
+					zero = append(zero, fmt.Sprint(g.GaugeId))
+				} else {
+					fn.Gauges = append(fn.Gauges, g)
+				}
+			}
+			out["sponsorship.distribution"] = fn.String()
+			out["sponsorship.distributionZeroPowerEntries"] = strings.Join(zero, ",")
 		}
 	}()
 	for _, fn := range c18ExtraDumps {
@@ -138,6 +153,15 @@ func c18ImportClass(err error) string {
 	}
 	return "other"
 }
+
+// c18InvClass: the message of a broken registered invariant without the id of the zero-power entry the
+// sponsorship `distribution` invariant happens to meet first (which zero-power entries exist on either
+// chain is compared, and reported, as the dump key sponsorship.distributionZeroPowerEntries)
+func c18InvClass(m string) string {
+	return trunc200(reZeroPowerID.ReplaceAllString(m, "gauge power must be > 0, got 0: id: N"))
+}
+
+var reZeroPowerID = regexp.MustCompile(`gauge power must be > 0, got 0: id: [0-9]+`)
 
 var reInvBroken = regexp.MustCompile(`invariant broken: ([a-z]+): ([a-z\- ]+) invariant`)
 
@@ -354,7 +378,7 @@ func c18Compare(r *Run, f *Fix, trace []string) (res c18Result) {
 			violate("C18/reexport/"+m+"-genesis-differs/"+diffSig(d), trunc200("second export differs at "+m+d))
 		}
 	}
-	if m2 := f2.Invariants(); m2 != "" && trunc200(m2) != trunc200(inv0) {
+	if m2 := f2.Invariants(); m2 != "" && c18InvClass(m2) != c18InvClass(inv0) {
 		violate("C18/invariants/broken-after-import", trunc200(m2))
 	}
 	s1, s2 := f.App.BankKeeper.GetSupply, f2.App.BankKeeper.GetSupply
